@@ -26,8 +26,16 @@ def _exists(ex, args, kwargs, e):
 
 
 def _unlink(ex, args, kwargs, e):
+    a = args[0]
+    if isinstance(a, V) and a.ty == BPATH:       # a file of the data store itself
+        b = BPATH.get(a.t, 'blob')
+        for g in (STORED, CONTENT):
+            ex._note_write(g, e.lineno)
+        ex.st.glob[STORED] = z3.Store(ex.st.glob[STORED], b, False)
+        ex.st.glob[CONTENT] = z3.Store(ex.st.glob[CONTENT], b, MC.opt.none())
+        return None
     ex._note_write(STG, e.lineno)
-    ex.st.glob[STG] = z3.Store(ex.st.glob[STG], ex.to_z3(args[0], STAGED), False)
+    ex.st.glob[STG] = z3.Store(ex.st.glob[STG], ex.to_z3(a, STAGED), False)
 
 
 def _move(ex, args, kwargs, e):
@@ -49,6 +57,12 @@ class move(ContractBase):
     returns = Tup(BLOB, BOOL)
     modifies = [STORED, CONTENT, STG]
     externs = FS
+
+    def boundary_invariant(c):
+        # crash points inside move: a file that was stored stays stored (with its content) after every statement, so no
+        # catalogue entry written earlier can be left pointing at nothing
+        b = c.sk('bb', BLOB)
+        return {'stored-files-stay-stored': Implies(c.old.g(STORED)[b], And(c.cur.g(STORED)[b], c.cur.g(CONTENT)[b] == c.old.g(CONTENT)[b]))}
 
     def ensures(c):
         b = c.sk('b', BLOB)
